@@ -773,6 +773,9 @@ class Interp:
             if f.name not in vals:
                 if f.has_default and f.default is not None:
                     vals[f.name] = self.ev(f.default, Frame(self.P.modules[ci.module]))
+                elif f.has_default and getattr(f, 'factory', None) is not None:
+                    # dataclass semantics: default_factory is called with no argument for every new instance
+                    vals[f.name] = self.call(self.ev(f.factory, Frame(self.P.modules[ci.module])), [], {})
                 elif f.has_default:
                     raise Unsupported('default_factory field')
                 else:
